@@ -336,3 +336,28 @@ package labelmap
 //@   requires_off
 //@   modifies *
 //@   assert at "ch := make(chan blockSend, chanSize)": blocksdims.Value(0) >= 1 && blocksdims.Value(1) >= 1 && blocksdims.Value(2) >= 1 && chanSize >= 1 && chanSize <= 10000
+
+// GetLabelAtScaledPoint (C20): a point of the wrong dimensionality (sparsevol-by-point/1_2) is refused with
+// an error: the block is looked up only after the block coordinate has been checked (comma-ok) to be 3-d.
+//@ func Data.GetLabelAtScaledPoint
+//@   prop C20
+//@   requires d != nil
+//@   safety_off
+//@   requires_off
+//@   modifies *
+//@   ghost is3d bool = false
+//@   ghostset after "bcoord, ok := coord.Chunk(blockSize).(dvid.ChunkPoint3d)": is3d = ok
+//@   assert at "labelData, err := d.getBlockLabels(v, bcoord, scale, supervoxels)": is3d
+
+// handleSparsevolByPoint (C20): the coordinate in the URL is parsed as a 3-d point (2-d and n-d
+// coordinates are refused by the parser) before any lookup.
+//@ func Data.handleSparsevolByPoint
+//@   prop C20
+//@   requires d != nil
+//@   safety_off
+//@   requires_off
+//@   calls_havoc
+//@   modifies *
+//@   ghost parsed3d bool = false
+//@   ghostset after "coord, err := dvid.StringToPoint3d(parts[4],": parsed3d = true
+//@   assert at "label, err := d.GetLabelAtScaledPoint(ctx.VersionID(), coord, scale, isSupervoxel)": parsed3d
